@@ -146,6 +146,8 @@ pub enum TargetMode {
     SendThenClose(Vec<u8>),
     /// once this many bytes have arrived: send the reply (the connection stays open)
     ReplyAfter(usize, Vec<u8>),
+    /// once this many bytes have arrived: send the reply and close
+    ReplyAfterThenClose(usize, Vec<u8>),
 }
 
 #[derive(Default, Debug)]
@@ -206,6 +208,17 @@ impl TcpTarget {
                                 };
                                 if mode == TargetMode::Echo && s.write_all(&buf[..n]).await.is_err() {
                                     break;
+                                }
+                                if let TargetMode::ReplyAfterThenClose(need, reply) = &mode {
+                                    if total >= *need {
+                                        let _ = s.write_all(reply).await;
+                                        let _ = s.shutdown().await;
+                                        // (read on until the proxy closes: nothing is left unread, no reset)
+                                        let mut sink = vec![0u8; 4096];
+                                        while matches!(s.read(&mut sink).await, Ok(n) if n > 0) {}
+                                        rec.lock().unwrap().eof = true;
+                                        break;
+                                    }
                                 }
                                 if let TargetMode::ReplyAfter(need, reply) = &mode {
                                     if !replied && total >= *need {
